@@ -6,6 +6,8 @@
   * `_exponential_mixture_log_likelihood_components` / `_exponential_mixture_log_likelihood`
     (log domain, `scipy.special.logsumexp` with its max shift, continuous and discretised variant,
     per-observation limits, `t_max = inf` as `none`);
+  * `DwelltimeModel.pdf` (rows of `np.unique(limits, axis=0, return_counts=True)`, every sub-density weighted by
+    its share of the dwell times and masked to its OWN window, summed over the classes);
   * `_exponential_mixture_log_likelihood_jacobian` (the code's collapsed chain-rule expressions,
     amplitude clip, the `valid` mask of the `t_max·exp(−t_max/τ)` term);
   * `_handle_amplitude_constraint`, `_exponential_mle_bounds` (exact rationals / doubles);
@@ -117,6 +119,49 @@ def pmfDisc (comps : List (Comp α)) (tmin : α) (tmax : Option α) (step t : α
     `ks` are the values `k` as numbers of the executing type -/
 def pmfSum (comps : List (Comp α)) (tmin step : α) (tmax : Option α) (ks : List α) : α :=
   sumL (ks.map fun k => pmfDisc comps tmin tmax step (tmin + k * step))
+
+/-! ### `DwelltimeModel.pdf`: the density of dwell times pooled from several observation windows -/
+
+/-- one row of `np.unique(limits, axis=0, return_counts=True)`: a set of observation limits and the number
+    of dwell times that carry it (`tmax = none` is `np.inf`; `step = none` selects the continuous model) -/
+structure LimitClass (α : Type) where
+  count : α
+  tmin : α
+  tmax : Option α
+  step : Option α
+
+/-- the support mask of `to_pdf`: `np.logical_and(x >= min_time, x < max_time)` — evaluated with the limits of
+    the class the sub-density belongs to -/
+def inWindow (tmin : α) (tmax : Option α) (x : α) : Bool :=
+  RealLike.le tmin x && (match tmax with
+    | none => true
+    | some m => RealLike.lt x m)
+
+/-- `to_pdf(count, min_time, max_time, time_step)` at one point `x`, one value per component:
+    `count/sum(counts) · mask(x) · exp(log-component at xe) · 1/Δ`.  `xe` is the point the components are
+    evaluated at: `x` itself for the continuous model, `floor(x/Δ)·Δ` for the discretised one (the caller
+    supplies it; `floor` is not a `RealLike` operation). -/
+def classPdfRows (comps : List (Comp α)) (total : α) (c : LimitClass α) (x xe : α) : List α :=
+  let mask : α := if inWindow c.tmin c.tmax x then 1.0 else 0.0
+  let norm : α := match c.step with
+    | none => 1.0
+    | some d => 1.0 / d
+  (pdfRows comps ⟨xe, c.tmin, c.tmax, c.step⟩).map fun p => c.count / total * mask * p * norm
+
+/-- element-wise sum of two rows -/
+def addRows : List α → List α → List α
+  | a :: xs, b :: ys => (a + b) :: addRows xs ys
+  | _, _ => []
+
+/-- `DwelltimeModel.pdf(x)` at one point: `np.sum` over the limit classes of their weighted, masked
+    sub-densities; one value per component.  `xe c` is the evaluation point of class `c` (see `classPdfRows`). -/
+def pooledPdfRows (comps : List (Comp α)) (classes : List (LimitClass α)) (x : α) (xe : LimitClass α → α) : List α :=
+  let total := sumL (classes.map (·.count))
+  classes.foldl (fun acc c => addRows acc (classPdfRows comps total c x (xe c))) (comps.map fun _ => 0.0)
+
+/-- the mixture density itself: sum over the components of `pooledPdfRows` (what `hist` draws as the fit) -/
+def pooledPdf (comps : List (Comp α)) (classes : List (LimitClass α)) (x : α) (xe : LimitClass α → α) : α :=
+  sumL (pooledPdfRows comps classes x xe)
 
 /-! ### The analytic gradient (`_exponential_mixture_log_likelihood_jacobian`) -/
 
@@ -427,6 +472,45 @@ def mkObs (ts tmins tmaxs : List Float) (steps : Option (List Float)) : Option (
       if ss.length ≠ n then none
       else some ((ts.zip (tmins.zip (tmaxs.zip ss))).map fun (t, lo, hi, s) => ⟨t, lo, optMax hi, some s⟩)
 
+/-- a row of the `limits` matrix of `DwelltimeModel.pdf`: `(tmin, tmax, step)`; `step = 0` when the model is continuous -/
+abbrev LimRow := Float × Float × Float
+
+/-- lexicographic `<` on rows (the order `np.unique(…, axis=0)` sorts by) -/
+def LimRow.lt (a b : LimRow) : Bool :=
+  a.1 < b.1 || (a.1 == b.1 && (a.2.1 < b.2.1 || (a.2.1 == b.2.1 && a.2.2 < b.2.2)))
+
+def LimRow.eq (a b : LimRow) : Bool := a.1 == b.1 && a.2.1 == b.2.1 && a.2.2 == b.2.2
+
+/-- insert a row into the sorted table of distinct rows with their counts -/
+def insertRow (r : LimRow) : List (LimRow × Nat) → List (LimRow × Nat)
+  | [] => [(r, 1)]
+  | (q, n) :: rest =>
+    if LimRow.eq r q then (q, n + 1) :: rest
+    else if LimRow.lt r q then (r, 1) :: (q, n) :: rest
+    else (q, n) :: insertRow r rest
+
+/-- `np.unique(limits, axis=0, return_counts=True)` -/
+def uniqueCounts (rows : List LimRow) : List (LimRow × Nat) := rows.foldl (fun acc r => insertRow r acc) []
+
+/-- the limit classes of a data set from parallel lists of per-observation limits -/
+def mkClasses (tmins tmaxs : List Float) (steps : Option (List Float)) : Option (List (LimitClass Float)) :=
+  let n := tmins.length
+  if tmaxs.length ≠ n ∨ n = 0 then none
+  else match steps with
+    | none =>
+      some ((uniqueCounts ((tmins.zip tmaxs).map fun (lo, hi) => (lo, hi, 0.0))).map fun (r, k) =>
+        ⟨k.toFloat, r.1, optMax r.2.1, none⟩)
+    | some ss =>
+      if ss.length ≠ n then none
+      else some ((uniqueCounts ((tmins.zip (tmaxs.zip ss)).map fun (lo, hi, s) => (lo, hi, s))).map fun (r, k) =>
+        ⟨k.toFloat, r.1, optMax r.2.1, some r.2.2⟩)
+
+/-- the point `to_pdf` evaluates the components at: `np.floor(x / time_step) * time_step` for the discretised model -/
+def evalPoint (x : Float) (c : LimitClass Float) : Float :=
+  match c.step with
+  | none => x
+  | some d => Float.floor (x / d) * d
+
 def steps? (s : String) : Option (Option (List Float)) :=
   if s == "N" then some none else (floatList? s).map some
 
@@ -487,6 +571,20 @@ def handle : List String → Option String
     let nodes ← floatList? nodes; let weights ← floatList? weights
     if nodes.length ≠ weights.length then none
     else some (showFloat (sumL ((nodes.zip weights).map fun (x, w) => w * pdfCont comps tmin (optMax tmax) x)))
+  -- DwelltimeModel.pdf(xs) of a model with the given per-observation limits: one row per component
+  | ["c15.pdfpool", amps, taus, xs, tmins, tmaxs, steps] => do
+    let comps ← mkComps (← floatList? amps) (← floatList? taus)
+    let classes ← mkClasses (← floatList? tmins) (← floatList? tmaxs) (← steps? steps)
+    let cols := (← floatList? xs).map fun x => pooledPdfRows comps classes x (evalPoint x)
+    let rows := (List.range comps.length).map fun i => cols.map fun c => c.getD i (0.0 / 0.0)
+    some (showListList showFloat rows)
+  -- Σ_j w_j · pooledPdf(x_j): quadrature of the pooled density with caller-supplied nodes and weights
+  | ["c15.quadpool", amps, taus, tmins, tmaxs, steps, nodes, weights] => do
+    let comps ← mkComps (← floatList? amps) (← floatList? taus)
+    let classes ← mkClasses (← floatList? tmins) (← floatList? tmaxs) (← steps? steps)
+    let nodes ← floatList? nodes; let weights ← floatList? weights
+    if nodes.length ≠ weights.length then none
+    else some (showFloat (sumL ((nodes.zip weights).map fun (x, w) => w * pooledPdf comps classes x (evalPoint x))))
   -- constructor / optimiser argument validation
   | ["c15.validate", ts, tmin, tmax, step] => do
     let ts ← floatList? ts; let tmin ← soa? tmin; let tmax ← soa? tmax
